@@ -97,12 +97,13 @@ def _run_once(net, script=None, default="identity", sched_seed=0, exec_mode=None
             before = {int(i): (np.asarray(a.sensors.boresight, dtype=float).tobytes(), float(a.sensors.time_last_tasked)) for i, a in app.sensor_agents.items()}
             app.stepForward()
             d = netkit.step_digest(app)
-            eng = app.tasking_engines[1]
-            dec = np.array(eng.decision_matrix, dtype=bool)
-            pairs = [(int(eng.sensor_list[j]), int(eng.target_list[i])) for i in range(dec.shape[0]) for j in range(dec.shape[1]) if dec[i, j]]
+            pairs, obs_now, miss_all = [], [], []
             jd = float(app.clock.julian_date_epoch)
-            obs_now = [(int(o.sensor_id), int(o.target_id)) for o in eng.observations]
-            miss_all = [(int(m.sensor_id), int(m.target_id), float(m.julian_date)) for m in eng.missed_observations]
+            for eng in app.tasking_engines.values():
+                dec = np.array(eng.decision_matrix, dtype=bool)
+                pairs += [(int(eng.sensor_list[j]), int(eng.target_list[i])) for i in range(dec.shape[0]) for j in range(dec.shape[1]) if dec[i, j]]
+                obs_now += [(int(o.sensor_id), int(o.target_id)) for o in eng.observations]
+                miss_all += [(int(m.sensor_id), int(m.target_id), float(m.julian_date)) for m in eng.missed_observations]
             after = {int(i): (np.asarray(a.sensors.boresight, dtype=float).tobytes(), float(a.sensors.time_last_tasked)) for i, a in app.sensor_agents.items()}
             # the output is written every `save_every` steps, as propagateTo() does for an output step that is a multiple of
             # the physics step: what the steps in between produced has to survive until then
@@ -269,6 +270,14 @@ def run(ctx):
             break
         net = netkit.gen_network(rng)
         net["save_every"] = rng.choice([1, 1, 2, 3])
+        if len(net["sensors"]) >= 2 and len(net["targets"]) >= 2 and rng.random() < 0.3:
+            net["split_engines"] = True
+            ctx.count("nets_with_two_engines")
+            if rng.random() < 0.6:
+                # both engines should produce misses in the same step: narrow fields of view around a poor initial estimate
+                for sdesc in net["sensors"]:
+                    sdesc["fov"] = "narrow"
+                net["init_pos_std"] = rng.choice([5.0, 30.0])
         if net["save_every"] > 1:
             net["nsteps"] = max(net["nsteps"], 3)
             ctx.count("nets_with_output_every_n_steps")
